@@ -9,7 +9,7 @@
 """
 from __future__ import annotations
 from ._thermo import Thermo
-from ._stream import Stream
+from ._stream import Stream, Equations
 from ._thermal_condition import ThermalCondition
 from .indexer import MolarFlowIndexer
 from ._phase import phase_tuple
@@ -209,6 +209,7 @@ class MultiStream(Stream):
                  characterization_factors: Optional[Dict[str, float]]=None, 
                  vlle: Optional[bool]=False, 
                  **phase_flows: Tuple[str, float]):
+        self.equations = Equations()
         self.characterization_factors = {} if characterization_factors is None else characterization_factors
         self._thermal_condition = ThermalCondition(T, P)
         thermo = self._load_thermo(thermo)
